@@ -1051,6 +1051,41 @@ fn ep_c14(s: &mut S, r: &mut Rng, maxc: usize, maxr: usize) {
     }
 }
 
+/// Bounded-exhaustive TextCollector endings: a line that wraps over several rows, line feeds that push part of it
+/// into a limited scrollback (so that the hand-out boundary falls INSIDE the logical line), then an ending that
+/// leaves blanks, more text or nothing in the view; flush; same text under limits 0, 1 and unlimited, whole and
+/// character by character.
+fn ep_c14t(s: &mut S) {
+    let endings = ["", "\x1b[2J", "\x1b[1J", "\x1b[H\x1b[J", "\r   ", "\x1b[2K", "z", "\x1b[?1047h\x1b[?1047l", "\x1b[H\x1b[M\x1b[M"];
+    for w in [3usize, 4] {
+        for h in [2usize, 3] {
+            for len in (w + 1)..=(3 * w) {
+                for nl in 0..4usize {
+                    for end in endings {
+                        s.episode("C14T");
+                        let mut input: String = (0..len).map(|i| (b'a' + (i % 26) as u8) as char).collect();
+                        for _ in 0..nl {
+                            input.push_str("\r\n");
+                        }
+                        input.push_str(end);
+                        let tcs = [s.tc_new(w, h, 0), s.tc_new(w, h, 1), s.tc_new(w, h, -1), s.tc_new(w, h, 0)];
+                        for k in &tcs[..3] {
+                            s.tc_feed(*k, &input);
+                        }
+                        for ch in input.chars() {
+                            s.tc_feed(tcs[3], &ch.to_string());
+                        }
+                        for k in tcs {
+                            s.tc_flush(k);
+                        }
+                        s.tc_rel(&tcs);
+                    }
+                }
+            }
+        }
+    }
+}
+
 // ---------------------------------------------------------------------------------- C16
 
 fn ep_c16(s: &mut S, r: &mut Rng, maxc: usize, maxr: usize) {
@@ -1499,6 +1534,12 @@ pub fn run(args: &Args) -> i32 {
         ep_c08x(&mut s, &mut r, args.num("shard", 0), args.num("shards", 1));
         s.out.flush().unwrap();
         println!("{{\"driver\":\"C08X\",\"seed\":{},\"episodes\":{},\"events\":{},\"panics\":{},\"chars\":{},\"distinct_nontrivial\":{}}}", seed, s.episodes, s.events, s.panics, s.chars_fed, s.distinct.len());
+        return 0;
+    }
+    if drv == "C14T" {
+        ep_c14t(&mut s);
+        s.out.flush().unwrap();
+        println!("{{\"driver\":\"C14T\",\"seed\":{},\"episodes\":{},\"events\":{},\"panics\":{},\"chars\":{},\"distinct_nontrivial\":{}}}", seed, s.episodes, s.events, s.panics, s.chars_fed, s.distinct.len());
         return 0;
     }
     if drv == "C03S" {
